@@ -64,7 +64,15 @@ func (m *defaultVarMocker) Apply(callback interface{}) {
 
 // Cancel 取消 mock
 func (m *defaultVarMocker) Cancel() {
-	m.targetValue.Elem().Set(reflect.ValueOf(m.originValue))
+	if m.captured {
+		elem := m.targetValue.Elem()
+		origin := reflect.ValueOf(m.originValue)
+		if !origin.IsValid() {
+			// 原始值为 nil interface
+			origin = reflect.Zero(elem.Type())
+		}
+		elem.Set(origin)
+	}
 	m.canceled = true
 }
 
